@@ -2206,21 +2206,23 @@ fn run_alloc_unbounded(prop: &'static str) {
         for _ in 0..6 { let r = measured!(a0, Pin::new(&mut m).poll_next(&mut cx)); drop(r); }
         let mut a = 0usize;
         let mut per = vec![];
+        // the 64 sources of the second group stay for good; the one other source is the one that gets replaced
+        let mut other = live.pop_back().unwrap();
         for _ in 0..100 {
             let (s, st) = mk(&mut rng, &mut id);
-            live.push_back(st);
             let mut x = 0usize;
             measured!(x, m.push(s));
-            let r = measured!(x, Pin::new(&mut m).poll_next(&mut cx)); drop(r);
-            let st = live.pop_front().unwrap(); st.end_now.set(true); let w = st.waker.borrow().clone(); if let Some(w) = w { w.wake_by_ref(); }
             for _ in 0..2 { let r = measured!(x, Pin::new(&mut m).poll_next(&mut cx)); drop(r); }
+            other.end_now.set(true); let w = other.waker.borrow().clone(); if let Some(w) = w { w.wake_by_ref(); }
+            other = st;
+            for _ in 0..3 { let r = measured!(x, Pin::new(&mut m).poll_next(&mut cx)); drop(r); }
             a += x;
             per.push(x);
         }
         let late: usize = per[20..].iter().sum();
         let _ = a;
         if late > 0 {
-            report(&Fail { prop, scenario: "MergeUnbounded: 97 pending sources (three groups), the 32 oldest end, then 100 times: push one source, the oldest one ends - at a constant population of 65..66".into(), history: vec![format!("allocations per replacement (first 40): {:?}", &per[..40])], what: format!("{late} allocations in replacements 21..100 at a constant population") });
+            report(&Fail { prop, scenario: "MergeUnbounded: 97 pending sources (three groups), the 32 oldest end, then 100 times: push one source, the previously pushed one ends (the 64 sources of the second group stay) - at a constant population of 65..66".into(), history: vec![format!("allocations per replacement (first 40): {:?}", &per[..40])], what: format!("{late} allocations in replacements 21..100 at a constant population") });
         }
     }
     // S3b: MergeUnbounded with three groups (32 + 64 + 128): the second and the third group run dry within ONE poll call (their last
